@@ -10,7 +10,17 @@
 // reachable totals come from a naive two-row table that is itself cross-checked
 // against the enumeration on every small case.
 //
-// Files: main.go (engines, shared helpers), knapsack.go, finddp.go, cliques.go.
+// Further engines produce the situations of LESSONS.md that "call, then judge"
+// cases do not contain: big.go (sizes above thresholds), grow.go (a Graph value
+// that keeps growing between enumerations, kept and scribbled results; unions
+// of small graphs with hundreds of vertices), huge.go (limits and values at the
+// top of the int range; totals beyond it), session.go (uninterrupted call
+// sequences from one caller buffer with one ingredient changed per call,
+// panicking and re-entrant callbacks, kept results), fdjudge.go (FindDpSolvers
+// oracle interface and judge shared by them).
+//
+// Files: main.go (engines, shared helpers), knapsack.go, finddp.go, cliques.go,
+// big.go, grow.go, huge.go, session.go, fdjudge.go.
 package main
 
 import (
@@ -71,6 +81,7 @@ func hashItems(kind uint64, limit int, items []item) uint64 {
 // selInfo is what the oracle derives from a returned selection.
 type selInfo struct {
 	w, v int
+	vInf bool // the total value does not fit an int (v is then math.MaxInt)
 	mask uint64
 }
 
@@ -80,31 +91,80 @@ type selInfo struct {
 func checkSel(c *ev.Case, prefix string, ctx func() string, items, sel []item) (selInfo, bool) {
 	var s selInfo
 	fmtItems := fmtItems
-	if strings.HasPrefix(prefix, "fd/") {
+	if strings.HasPrefix(prefix, "fd") {
 		fmtItems = fmtVals // subset-sum items have no weight
 	}
 	if len(sel) > len(items) {
 		c.Failf(prefix+"/item-reused", "returned selection has %d elements but only %d items exist: %s ; %s", len(sel), len(items), fmtItems(clip(sel)), ctx())
 		return s, false
 	}
+	var seen []bool // identities beyond the 64 a mask can hold
+	if len(items) > 64 {
+		seen = make([]bool, len(items))
+	}
 	for _, it := range sel {
 		if it.ID < 0 || it.ID >= len(items) || items[it.ID] != it {
-			c.Failf(prefix+"/foreign-item", "returned selection %s contains %+v which is not one of the input items ; %s", fmtItems(sel), it, ctx())
+			c.Failf(prefix+"/foreign-item", "returned selection %s contains %+v which is not one of the input items ; %s", fmtItems(clip(sel)), it, ctx())
 			return s, false
 		}
-		if s.mask&(1<<uint(it.ID)) != 0 {
-			c.Failf(prefix+"/item-reused", "returned selection %s uses item #%d more than once ; %s", fmtItems(sel), it.ID, ctx())
+		dup := false
+		if seen != nil {
+			dup, seen[it.ID] = seen[it.ID], true
+		} else {
+			dup = s.mask&(1<<uint(it.ID)) != 0
+			s.mask |= 1 << uint(it.ID)
+		}
+		if dup {
+			c.Failf(prefix+"/item-reused", "returned selection %s uses item #%d more than once ; %s", fmtItems(clip(sel)), it.ID, ctx())
 			return s, false
 		}
-		s.mask |= 1 << uint(it.ID)
 		if it.W > 0 && s.w > math.MaxInt-it.W {
 			s.w = math.MaxInt // saturate: "unliftable" weights must not wrap around
 		} else {
 			s.w += it.W
 		}
-		s.v += it.V
+		if it.V > 0 && s.v > math.MaxInt-it.V {
+			s.v, s.vInf = math.MaxInt, true
+		} else {
+			s.v += it.V
+		}
 	}
 	return s, true
+}
+
+// input hands golib a private copy of the item list that sits in the middle of
+// a larger arena (spare capacity behind it, guard elements on both sides) and
+// returns a function that decides "the call left its argument and the
+// neighbouring storage alone".
+func input(c *ev.Case, prefix string, items []item) ([]item, func(ctx func() string) bool) {
+	const guard = 3
+	n := len(items)
+	arena := make([]item, n+2*guard)
+	for i := range arena {
+		arena[i] = item{ID: -1000 - i, W: -77, V: -99}
+	}
+	in := arena[guard : guard+n] // cap(in) = n+guard: an append inside golib lands on a guard element
+	copy(in, items)
+	if n == 0 && c.Index%2 == 0 {
+		in = nil // "no items" as a nil slice in half of the empty cases
+		c.Add("empty_input_as_nil_slice", 1)
+	}
+	return in, func(ctx func() string) bool {
+		for i := range in {
+			if in[i] != items[i] {
+				c.Failf(prefix+"/input-modified", "the item list handed to the call was modified: position %d held %+v before the call and %+v after it ; %s", i, items[i], in[i], ctx())
+				return false
+			}
+		}
+		for i := range arena {
+			if (i < guard || i >= guard+n) && arena[i] != (item{ID: -1000 - i, W: -77, V: -99}) {
+				c.Failf(prefix+"/input-modified", "the call wrote outside the item list it was given (caller's storage %d places from the start of the list now holds %+v) ; %s", i-guard, arena[i], ctx())
+				return false
+			}
+		}
+		c.Add("inputs_compared_after_call", 1)
+		return true
+	}
 }
 
 func clip(sel []item) []item {
@@ -170,10 +230,13 @@ func mkBreaker(kind int, salt uint64, st *brStat) func(old, new []item) bool {
 
 func main() {
 	r := ev.New("C18")
-	r.Rule("one case = one generated instance: (a) item list (weights >= 0 from small alphabets / zero / heavier than the limit, values > 0 from small alphabets / proportional to weight) + limit (0, small, around the weight sum) run through Knapsack with no tie-breaker and with five tie-breakers; (b) value list + maxValue run through FindDpSolvers for allowOverOnce in {false,true} x the same six tie-breaker settings, followed by Best/BestAllowMinOverflow queries; (c) an undirected simple graph (G(n,p) at all densities, multipartite, clique unions, paths/cycles/stars, isolated vertices, empty) built in a seeded insertion order and enumerated several times (Go's map order varies between calls). distinct = hash of the instance (items+limit, or adjacency matrix); non-trivial = at least 2 items / 2 vertices")
+	r.Rule("one case = one generated instance: (a) item list (weights >= 0 from small alphabets / zero / heavier than the limit, values > 0 from small alphabets / proportional to weight) + limit (0, small, around the weight sum) run through Knapsack with no tie-breaker and with five tie-breakers; (b) value list + maxValue run through FindDpSolvers for allowOverOnce in {false,true} x the same six tie-breaker settings, followed by Best/BestAllowMinOverflow queries; (c) an undirected simple graph (G(n,p) at all densities, multipartite, clique unions, paths/cycles/stars, isolated vertices, empty) built in a seeded insertion order and enumerated several times (Go's map order varies between calls). distinct = hash of the instance (items+limit, or adjacency matrix); non-trivial = at least 2 items / 2 vertices; (d) further engines, one per situation that do-then-observe cases do not contain: big (65..300 items, selections longer than 64/128/256, limits and key counts above 4096, unions of small graphs with 65..4100 vertices), cliques/grow (one Graph value grown in windows of unobserved mutators, results kept and judged again later or overwritten by the caller, Init half-way, first stage written into Nodes), cliques/labels (look-alike labels of several types), finddp/hugelimit and finddp/overflow (limits/values of 2^31..MaxInt; totals beyond MaxInt), session/serial (uninterrupted call sequence from one caller buffer, one ingredient changed per call, panicking and re-entrant callbacks, all results judged again at the end)")
 	r.Assume("the oracle is the enumeration of all 2^n selections (vertex subsets) for n <= 10 (14 thorough) items, n <= 9 (12 thorough) vertices; the wide engines (n up to 40 items / 16..20 vertices) use a naive two-row value table, a boolean reachability table and a 2^n clique table instead, and the two tables are cross-checked against the enumeration on every small case (disagreement = harness failure)")
 	r.Assume("domain as quantified: weights >= 0, values > 0, limit >= 0 for Knapsack (no selection satisfies a negative limit, so the statement cannot be about it), any maxValue for FindDpSolvers (negative ones occasionally), simple graphs without self-loops built with AddNode/AddUndirectedEdge; for the empty graph both [] and [[]] are accepted")
 	r.Assume("keys above maxValue other than the smallest attainable overshoot (golib keeps earlier, larger overshoots) are not judged except that every entry present must be a valid selection summing to its key; Best(q)/BestAllowMinOverflow(q) are also queried for q < maxValue of the construction, where the statement's description of the map determines the answer")
+
+	r.Assume("every call gets its item list in the middle of a guarded arena with spare capacity; the list and the storage around it must be the same after the call (the API does not say the argument is consumed). A result that was exact when returned must still be exact for the instance it was computed for after later calls and after the caller reused its own buffer; the caller may overwrite a returned clique list")
+	r.Assume("finddp/overflow: single values and limits up to math.MaxInt; totals of selections may exceed it and are then above every limit (oracle adds with saturation). Only what the statement speaks about is judged there: entries with key in [0,maxValue], the smallest attainable overshoot if it fits an int, Best/BestAllowMinOverflow for arguments <= maxValue")
 
 	hv := ev.Opt{HangViolation: true, MaxCaseSeconds: 120}
 	r.Cases("knapsack/brute", r.N(120000, 3000000), hv, knapsackCase(false))
@@ -182,6 +245,15 @@ func main() {
 	r.Cases("finddp/wide", r.N(1000, 30000), hv, findDpCase(true))
 	r.Cases("cliques/brute", r.N(100000, 2000000), hv, cliqueCase(false))
 	r.Cases("cliques/wide", r.N(800, 4000), hv, cliqueCase(true))
+	r.Cases("knapsack/big", r.N(160, 3000), hv, bigKnapsackCase)
+	r.Cases("finddp/big", r.N(120, 2000), hv, bigFindDpCase)
+	r.Cases("cliques/big", r.N(300, 4000), hv, bigCliqueCase)
+	r.Cases("cliques/labels", r.N(8000, 150000), hv, labelCase)
+	r.Cases("cliques/grow", r.N(30000, 600000), hv, growCase)
+	r.Cases("knapsack/hugevalues", r.N(6000, 150000), hv, hugeValueKnapsackCase)
+	r.Cases("finddp/hugelimit", r.N(3000, 100000), hv, hugeCase(false))
+	r.Cases("session/serial", r.N(6000, 150000), ev.Opt{HangViolation: true, MaxCaseSeconds: 60, Serial: true}, sessionCase)
+	r.Cases("finddp/overflow", r.N(6000, 150000), hv, hugeCase(true))
 
 	// anti-vacuity floors: about 1/5 .. 1/10 of what the quick tier observes at seed 1
 	r.Require("ks_calls", 150000)
@@ -214,5 +286,51 @@ func main() {
 	r.Require("cl_empty_graph", 1000)
 	r.Require("cl_complete_graphs", 3000)
 	r.Require("cl_edgeless_graphs", 4000)
+	// floors for the situations added after the LESSONS review (about 1/3 of a quick run)
+	r.Require("inputs_compared_after_call", 300000)
+	r.Require("kb_calls", 200)
+	r.Require("kb_limit_above_4096", 30)
+	r.Require("kb_limit_above_16384", 3)
+	r.Require("kb_selections_longer_than_64", 80)
+	r.Require("kb_selections_longer_than_128", 30)
+	r.Require("kb_selections_longer_than_256", 5)
+	r.Require("fb_calls", 250)
+	r.Require("fb_maps_with_more_than_4096_entries", 80)
+	r.Require("fb_maps_with_selection_longer_than_64", 50)
+	r.Require("fb_maps_with_selection_longer_than_128", 15)
+	r.Require("cb_enumerations", 400)
+	r.Require("cb_graphs_with_more_than_64_vertices", 200)
+	r.Require("cb_graphs_with_more_than_256_vertices", 40)
+	r.Require("cl_graphs_with_lookalike_labels", 8000)
+	r.Require("cg_enumerations", 100000)
+	r.Require("cg_windows_adding_only_edges_between_existing_vertices", 20000)
+	r.Require("cg_windows_adding_only_isolated_vertices", 4000)
+	r.Require("cg_windows_changing_nothing", 1000)
+	r.Require("cg_kept_results_judged_again", 40000)
+	r.Require("cg_results_scribbled_by_caller", 40000)
+	r.Require("cg_first_stage_written_into_Nodes", 2500)
+	r.Require("cg_reinitialised_for_another_size", 3000)
+	r.Require("kh_calls", 8000)
+	r.Require("kh_optimum_at_least_2_53", 2000)
+	r.Require("empty_input_as_nil_slice", 1500)
+	r.Require("fh_calls", 10000)
+	r.Require("fh_limit_at_top_of_int_range", 200)
+	r.Require("fh_values_at_least_2_31", 4000)
+	r.Require("fh_best_answer_2_31_or_more_below_query", 20000)
+	r.Require("fh_bamo_answer_2_31_or_more_above_query", 30000)
+	r.Require("fh_queries_far_below_zero", 20000)
+	r.Require("fo_calls", 12000)
+	r.Require("fo_instances_with_totals_beyond_maxint", 1800)
+	r.Require("fo_limit_at_top_of_int_range", 200)
+	r.Require("ss_calls", 15000)
+	r.Require("ss_same_buffer_other_content", 3000)
+	r.Require("ss_same_content_other_limit", 1000)
+	r.Require("ss_same_content_other_allow", 500)
+	r.Require("ss_same_content_other_breaker", 1500)
+	r.Require("ss_exact_repeats", 1000)
+	r.Require("ss_new_instance_same_buffer", 1000)
+	r.Require("ss_healthy_call_right_after_fault", 1500)
+	r.Require("ss_complete_calls_made_from_inside_a_callback", 3000)
+	r.Require("ss_kept_results_judged_again", 10000)
 	r.Finish()
 }
